@@ -3,7 +3,7 @@ from .. import panics, tables, terms
 from ..callgraph import norm
 from ..cfg import Cfg
 from ..common import body_by_name, callee_names, callgraph, impl_methods
-from ..facts import callee, const_int, op_const, op_local
+from ..facts import callee, const_int, op_const, op_local, op_place
 from ..flow import Flow
 from ..shapes import render_shapes, shapes_of
 
@@ -471,6 +471,18 @@ def range_norm_rule(rep, prog, cfg):
                     side_of[t["dest"]["l"]] = side
         if not side_of:
             continue
+        # an `if let Bound::Unbounded = ..` test that rejects a range (MPD's `move START:END` needs an END): it is the END bound
+        # that must not be open — the start of a range is always allowed to be open (it denotes 0)
+        for sw in tables.discr_switches(b):
+            if sw["adt"].endswith("ops::range::Bound") and sw["place"]["l"] in side_of and not sw["place"]["p"] and list(sw["arms"]) == ["Unbounded"]:
+                g0 = Cfg(b)
+                region = tables.exclusive(b, sw["arms"]["Unbounded"], [sw["otherwise"]])
+                rejects = any(b.blocks[x]["t"]["k"] == "call" and b.blocks[x]["t"].get("target") is None for x in region) or \
+                    any(b.blocks[x]["t"]["k"] in ("unreachable",) for x in region)
+                if rejects:
+                    rep.check(side_of[sw["place"]["l"]] == "end", rule, "%s/%s rejects an open end" % (cfg, norm(b.name)), b.loc(b.blocks[sw["bb"]]["ts"]),
+                              "%s rejects ranges whose %s bound is open; the command needs a closed END, an open start is legal (0)" % (
+                                  norm(b.name), side_of[sw["place"]["l"]]))
         sws = [sw for sw in tables.discr_switches(b) if sw["adt"].endswith("ops::range::Bound") and sw["place"]["l"] in side_of and not sw["place"]["p"]
                and len(sw["arms"]) >= 2]   # an `if let Bound::Unbounded` test (Move::range's guard) is not a normaliser
         if not sws:
@@ -520,6 +532,76 @@ def range_norm_rule(rep, prog, cfg):
                       % (terms.show(ret), results["start"], results["end"]))
     rep.floor(rule, cfg + "/normalisers", found, 2, "commands/definitions.rs")
 
+
+
+def builder_rule(rep, prog, cfg):
+    """Builder methods that take the command by value: every parameter the caller already gave (every field of `self`) reaches
+    the command that is returned, unless the method replaces exactly that field by one of its own parameters.  A field that is
+    consumed and not used (e.g. `filter: None` in a method that turns a filtered count into a grouped count) silently drops a
+    parameter: the request sent denotes other values than the Rust value built."""
+    rule = "C15.shape"
+    adts = {a["name"]: a for a in prog.adts.values()}
+    n = 0
+    for b in prog.bodies.values():
+        if b.crate != "mpd_client" or b.kind != "AssocFn" or b.raw.get("derived") or b.mir["argc"] < 1:
+            continue
+        nm = norm(b.name)
+        if not nm.startswith("mpd_client::commands::definitions::"):
+            continue
+        ty = b.local_ty(1)
+        if ty.startswith("&") or "mpd_client::commands::definitions::" not in b.local_ty(0):
+            continue
+        a = adts.get(ty.split("<")[0])
+        if not a or len(a["variants"]) != 1 or not a["variants"][0]["fields"]:
+            continue
+        fields = [f["name"] if f["name"] is not None else str(i) for i, f in enumerate(a["variants"][0]["fields"])]
+        read = set()
+
+        def note(pl):
+            if pl is None or pl["l"] != 1:
+                return
+            if not pl["p"]:
+                read.update(fields)
+                return
+            for e in pl["p"]:
+                if isinstance(e, dict) and "f" in e:
+                    read.add(e.get("n") if e.get("n") is not None else str(e["f"]))
+                    return
+        for bb, i, st in b.stmts():
+            if st["k"] != "assign":
+                continue
+            rv = st["rv"]
+            if rv["k"] in ("use", "cast"):
+                note(op_place(rv["op"]))
+            elif rv["k"] in ("ref", "discr"):
+                note(rv["place"])
+            elif rv["k"] == "agg":
+                for o in rv["ops"]:
+                    note(op_place(o))
+        for bb, t in b.calls():
+            for o in t["args"]:
+                note(op_place(o))
+        n += 1
+        unused = [f for f in fields if f not in read]
+        if not unused:
+            continue
+        fl = Flow(b)
+        # fields of the returned aggregate that are fed by a parameter of the method
+        from_param = set()
+        for bb, i, st in b.stmts():
+            if st["k"] == "assign" and st["rv"]["k"] == "agg" and st["rv"].get("agg") == "adt" and "mpd_client::commands::definitions::" in str(st["rv"].get("adt_name")):
+                for fname, o in zip(st["rv"]["fields"], st["rv"]["ops"]):
+                    l = op_local(o)
+                    if l is None:
+                        continue
+                    leaves, _ = fl.sources([l], through_call=lambda t2, k=None: tuple(range(4)), follow_mut=False)
+                    if any(x[0] == "param" and x[1] >= 2 for x in leaves):
+                        from_param.add(fname)
+        dropped = [f for f in unused if f not in from_param]
+        rep.check(not dropped, rule, "%s/%s keeps %s" % (cfg, nm.rsplit("::", 2)[-2] + "::" + nm.rsplit("::", 1)[-1], "+".join(unused)), b.loc(b.span),
+                  "%s consumes the command but does not use its field(s) %s, and no parameter of the method takes their place: a parameter the caller "
+                  "gave earlier is silently dropped from the request" % (nm, dropped))
+    rep.floor(rule, cfg + "/by-value builder methods", n, 20)
 
 
 def choke_rule(rep, prog, cfg):
@@ -680,6 +762,7 @@ def run(rep, progs, tier):
     rep.trusted = ["rustc MIR construction", "mpdfacts exporter", "MPD protocol command reference (reviewed table)", "rustc's format template encoding"]
     for cfg, prog in progs.items():
         shape_rule(rep, prog, cfg)
+        builder_rule(rep, prog, cfg)
         render_rule(rep, prog, cfg)
         enums_rule(rep, prog, cfg)
         overflow_rule(rep, prog, cfg)
